@@ -133,6 +133,33 @@ def all_map(xs):
         return v > 0
     return all(map(ok, xs)), any(map(ok, xs))
 
+HANDLERS = {"a": ("up", {}), "b": ("scale", {"k": 3})}
+ATTRS = {"l": "left", "r": "right"}
+
+class Mach:
+    def up(self, k=1):
+        return ("up", k)
+    def scale(self, k=2):
+        return ("scale", k)
+
+def dispatch(tok, log):
+    m = Mach()
+    for t in (tok, "a"):
+        st = HANDLERS.get(t)
+        if st is None:
+            log.append("skip")
+            continue
+        name, kw = st
+        log.append(getattr(m, name)(**kw))
+    return log
+
+def attr_dispatch(side, v):
+    b = Box(v)
+    name = ATTRS.get(side)
+    if name is not None:
+        return getattr(b, name)
+    return "?"
+
 def make(container):
     def call(v):
         container.append(v)
@@ -163,6 +190,8 @@ INPUTS = {
     "require_form": [(1,), (3,)],
     "all_map": [([1, 2],), ([0, 1],), ([],)],
     "use_factory": [(1,), (2,)],
+    "dispatch": [("a", []), ("b", []), ("z", [])],
+    "attr_dispatch": [("l", 4), ("r", 4), ("x", 4)],
 }
 
 
@@ -197,7 +226,7 @@ def main():
                 print("transform self-test: %s%r gives %r before and %r after the loader's rewrites" % (name, args, a, b))
     # the cases must actually exercise the rewrites
     expect_rewritten = {"search_break_carry", "continue_rows", "nested_rows", "break_no_carry", "reflect", "dict_items", "two_way", "two_way_stmt",
-                        "starred", "ifexp_iter", "bulk", "raise_form", "require_form", "all_map"}
+                        "starred", "ifexp_iter", "bulk", "raise_form", "require_form", "all_map", "dispatch", "attr_dispatch"}
     for name in sorted(expect_rewritten):
         f0 = next(n for n in ast.walk(tree0) if isinstance(n, ast.FunctionDef) and n.name == name)
         f1 = next(n for n in ast.walk(ast.parse(src1)) if isinstance(n, ast.FunctionDef) and n.name == name)
